@@ -57,6 +57,8 @@ def echo(chunks):
     from pico8.lua import lua as plua
     from pico8.lua import lexer as plexer
     from pico8.lua import parser as pparser
+    from vlib import prelude
+    prelude.lua()
     try:
         l = plua.Lua.from_lines(list(chunks), version=8)
     except Exception:
